@@ -551,6 +551,105 @@ def address_independent(facts, res):
     return n
 
 
+def views_from_buffer(facts, res, classes=("TbfParticlesContainer", "TbfCellsContainer"), R="C14.6.views-from-buffer"):
+    """A view over a copied buffer must behave like the original: whatever a container object holds BESIDES its memory blocks (a cached
+    row pointer, a count, a directory) is derived from the buffer, so every way of obtaining a container - every constructor, and every
+    member function that re-initialises the blocks' headers - has to establish it.  Found from the code: the block members are those the
+    raw-memory constructor initialises from its pointer parameters; any other non-static data member that some member function or
+    constructor writes must be written (directly or through same-object helpers) by all of them."""
+    n = 0
+    for cls in classes:
+        cl = [c for c in facts.classes if c["name"] == cls]
+        if len(cl) != 1:
+            raise AnalysisBroken("%s: class not found" % cls)
+        fields = {f["name"]: f for f in cl[0].get("fields", [])}
+        methods = [m for m in facts.methods_of(cls) if tbf.body(m) is not None and not m.get("inst")]
+        ctors = [m for m in methods if m["kind"] == "CXXConstructor"]
+        raw = [m for m in ctors if any("unsigned char" in p["t"] for p in m["params"])]
+        if not raw:
+            raise AnalysisBroken("%s: no raw-memory constructor found" % cls)
+        blocks = set()
+        for m in raw:
+            blocks |= {i.get("member") for i in m.get("inits", []) if i.get("member") and i.get("written")}
+        extra = sorted(set(fields) - blocks)
+        byname = {}
+        for m in methods:
+            byname.setdefault(m["name"], []).append(m)
+
+        def root(l):
+            l = strip(l)
+            for _ in range(6):
+                k = l.get("k")
+                if k in ("ArraySubscriptExpr",) and kids(l):
+                    l = strip(kids(l)[0])
+                elif k == "CXXOperatorCallExpr" and l.get("op") in ("[]", "*") and len(kids(l)) >= 2:
+                    l = strip(kids(l)[1])
+                elif k == "UnaryOperator" and l.get("op") == "*" and kids(l):
+                    l = strip(kids(l)[0])
+                else:
+                    break
+            if l.get("k") in ("MemberExpr", "CXXDependentScopeMemberExpr") and l.get("name") in fields and (not kids(l) or strip(kids(l)[0]).get("k") == "CXXThisExpr"):
+                return l["name"]
+            return None
+
+        def own(m):
+            out = {i.get("member") for i in m.get("inits", []) if i.get("member") and i.get("written")}
+            for x in walk(tbf.body(m)):
+                k = x.get("k")
+                if k in ("BinaryOperator", "CompoundAssignOperator") and x.get("op", "").endswith("=") and x.get("op") not in ("==", "!=", "<=", ">="):
+                    out.add(root(kids(x)[0]))
+                elif k == "CXXOperatorCallExpr" and x.get("op", "").endswith("=") and x.get("op") not in ("==", "!=", "<=", ">=") and len(kids(x)) >= 2:
+                    out.add(root(kids(x)[1]))
+                elif k in ("CallExpr", "CXXMemberCallExpr") and tbf.call_base(x) is not None and tbf.callee_name(x) in ("fill", "assign", "resize", "clear", "push_back", "emplace_back", "reset", "swap"):
+                    out.add(root(tbf.call_base(x)))
+            out.discard(None)
+            return out
+
+        def closure(m, seen=None, depth=0):
+            seen = seen if seen is not None else set()
+            if id(m) in seen or depth > 4:
+                return set()
+            seen.add(id(m))
+            out = own(m)
+            for x in walk(tbf.body(m)):
+                if x.get("k") in ("CallExpr", "CXXMemberCallExpr") and tbf.callee_name(x) in byname:
+                    b_ = tbf.call_base(x)
+                    if b_ is None or strip(b_).get("k") == "CXXThisExpr":
+                        for g_ in byname[tbf.callee_name(x)]:
+                            if g_["kind"] not in ("CXXConstructor", "CXXDestructor") and len(g_["params"]) == len(tbf.call_args(x)):
+                                out |= closure(g_, seen, depth + 1)
+            return out
+
+        def delegates(m):
+            t = facts.ntext(tbf.body(m)).replace(" ", "")
+            return "(*this)=" + cls in t or "*this=" + cls in t
+        written = {}
+        for m in methods:
+            for f_ in own(m):
+                if f_ in extra:
+                    written.setdefault(f_, m)
+        reinit = [m for m in methods if m["kind"] not in ("CXXConstructor", "CXXDestructor")
+                  and any(x.get("k") in ("CallExpr", "CXXMemberCallExpr") and tbf.callee_name(x) in ("initHeader", "resetBlocksFromSizes") and tbf.call_base(x) is not None and root(tbf.call_base(x)) in blocks for x in walk(tbf.body(m)))]
+        readers = {}
+        for m in methods:
+            for x in walk(tbf.body(m)):
+                if x.get("k") in ("MemberExpr", "CXXDependentScopeMemberExpr") and x.get("name") in written and id(m) != id(written[x["name"]]):
+                    readers.setdefault(x["name"], m)
+        res.instance(R, "%s members" % cls, facts.loc(cl[0]) if cl[0].get("l") else cls, "memory blocks %s; other data members %s; %d constructors, re-initialising functions %s"
+                     % (sorted(blocks), extra or "none", len(ctors), [m["name"] for m in reinit] or "none"))
+        n += 1
+        for f_, w in sorted(written.items()):
+            for m in ctors + reinit:
+                if f_ in closure(m) or (m["kind"] == "CXXConstructor" and delegates(m)):
+                    continue
+                rd = readers.get(f_)
+                what = "constructor %s(%s)" % (cls, ", ".join(p["t"] for p in m["params"])[:80]) if m["kind"] == "CXXConstructor" else "%s()" % m["name"]
+                res.violation(R, tbf.rel(facts.path_of(m)), m["qname"], "unestablished:%s@%d" % (f_, m["l"][1]), m["l"][1],
+                              "%s does not establish the member '%s', which %s (%s) derives from the buffer%s: a container obtained this way over a byte copy of the buffers answers from the member's default value, not from the buffer - the copy is no longer an equivalent view"
+                              % (what, f_, w["name"] + "()" if w["kind"] != "CXXConstructor" else "another constructor", facts.loc(w), (" and %s() reads" % rd["name"]) if rd else ""))
+    return n
+
+
 def run(res, tier):
     facts = tbf.scan("core")
     res.units.append("umbrella TU 'core': TbfMemoryBlock, 4 block kinds with their viewers, TbfCellsContainer / TbfParticlesContainer raw-memory interface")
@@ -572,6 +671,17 @@ def run(res, tier):
     for v in sub.violations:
         if v["key"].startswith("move:left-behind:"):
             res.violation("C14.5.description-travels", v["file"], v["function"], v["key"], v["line"], v["msg"])
+    res.rule("C14.6 views are functions of the buffer: every data member of the cell / particle containers besides the memory blocks is established by every constructor and by every function that re-initialises the block headers (a member cached by one raw-memory constructor only makes the other raw-memory view answer from defaults)")
+    n6 = views_from_buffer(facts, res)
+    res.floor("C14.6", n6, 2, "container classes")
+    import os
+    fx6 = os.path.join(tbf.VERIF, "fixtures", "c14_view_members.cpp")
+    ff6 = tbf.scan_file(fx6, [], [os.path.join(tbf.VERIF, "fixtures") + os.sep])
+    ctl6 = tbf.Result("control")
+    views_from_buffer(ff6, ctl6, classes=("View1", "View2"))
+    if len(ctl6.violations) != 1 or "View2" not in ctl6.violations[0]["function"]:
+        raise AnalysisBroken("positive control fixtures/c14_view_members.cpp: %d of 1 unestablished members reported" % len(ctl6.violations))
+    res.instance("C14.6.views-from-buffer", "positive control", "verif:fixtures/c14_view_members.cpp", "1 of 1 seeded constructs reported, the refreshed one silent")
     res.rule("C14.4 no function of the container / group classes converts a buffer pointer into a number (positions inside a buffer depend on its content only, never on its address)")
     n4 = address_independent(facts, res)
     res.floor("C14.4", n4, 100, "container / group functions")
